@@ -1182,8 +1182,11 @@ def table_rows():
             for enabled in T_ENABLED:
                 for group in T_GROUP:
                     for dep, dtype in T_DEP:
-                        rows.append({"layer": "table", "kind": kind, "optional": optional, "enabled": enabled,
-                                     "group": group, "dep": dep, "dtype": dtype})
+                        row = {"layer": "table", "kind": kind, "optional": optional, "enabled": enabled,
+                               "group": group, "dep": dep, "dtype": dtype}
+                        if (optional, enabled, group, dep, dtype) == (True, "absent", "none", "bool/T", "absent"):
+                            row["allow_known"] = True
+                        rows.append(row)
     return rows
 
 
@@ -1257,6 +1260,12 @@ def run_table_row(row, res, pid="C15"):
 
     forms, valid, invalid = build_table_forms(row)
     form = forms["F"]
+    # KNOWN FINDING guard (dependency-enabled-keyerror): `optional` present, `enabled` absent and a
+    # dependency -> dependency_requires_value indexes form["enabled"].  Two fixed rows keep it visible.
+    trigger = "optional" in form and "enabled" not in form and "dependency" in form
+    if trigger and not row.get("allow_known"):
+        res.count("excluded_by_finding")
+        form["enabled"] = True  # the documented default, written out
     required = docs_requires_value(form, forms)
     level = deciding_level(form, forms)
     switches = sum(1 for k in ("optional", "enabled", "group", "groupOptional", "dependency", "dependencyType")
@@ -1280,7 +1289,8 @@ def run_table_row(row, res, pid="C15"):
                 if surface == "validate":
                     validator.validate("F", value)
                 else:
-                    data = reference_flat(forms)
+                    # the auxiliary forms carry their (always acceptable) stored values
+                    data = {k: f.get("value") for k, f in forms.items()}
                     data["F"] = value
                     validator.validate_data(data)
 
@@ -1294,7 +1304,7 @@ def run_table_row(row, res, pid="C15"):
                     res.count("rejected_by_crash")
                     if vname == "invalid":
                         continue
-                res.fail(f"{pid}/table/crash/{vname}/{level}/{flags}/{detail}",
+                res.fail(f"{pid}/table/crash/{detail}/{level}" + ("/known:dependency-enabled-keyerror" if trigger else ""),
                          f"{surface}('F', {value!r}) crashed with {detail}; documented verdict: {expect}; "
                          f"forms={forms}")
             else:
@@ -1342,7 +1352,22 @@ def pair_strategy():
             "allow_known": st.sampled_from([False] * 9 + [True]),
         })
 
-    return st.sampled_from(PAIR_KINDS).flatmap(case_for)
+    return st.one_of(*[case_for(kind) for kind in PAIR_KINDS])
+
+
+def pair_grid():
+    """Every (kind, value case, API, identifier presentation) once, other fields fixed."""
+    grid = []
+    for kind in PAIR_KINDS:
+        identifiers = kind in ("object", "group", "data", "datagroup", "datavalue", "multiobject")
+        for vcase in PAIR_CASES[kind]:
+            for api in PAIR_APIS:
+                for present in (["uuid", "entity", "str"] if identifiers else ["uuid"]):
+                    grid.append({"layer": "pair", "kind": kind, "vcase": vcase, "api": api, "present": present,
+                                 "opt": None, "ref": 0, "pick": 1, "num": {"t": "float", "v": "2.5"},
+                                 "text": "abc", "geoh5": "path" if api == "construct" else "open_r",
+                                 "allow_known": False})
+    return grid
 
 
 def run_pair(program, res, pid="C15"):
@@ -1479,6 +1504,25 @@ def run_pair(program, res, pid="C15"):
         if api == "construct" and hasattr(value, "uid") and vcase == "foreign":
             unspecified = unspecified  # entities may be stored in a ui.json dictionary: verdict applies
 
+        known = None
+        # KNOWN FINDING guards
+        if kind == "datagroup" and expect == "accept" and (
+                (api in ("set_data_value", "validate_data") and isinstance(value, _uuid.UUID))
+                or (api != "construct" and isinstance(value, str))):
+            # pgvalidator-uuid: PropertyGroupValidator reads value.property_group_type of an identifier
+            if allow_known:
+                known = "pgvalidator-uuid"
+            else:
+                value = ident(_uuid.UUID(str(value)), "entity")
+                res.count("excluded_by_finding")
+        if kind == "multiobject" and vcase == "one-unknown" and api in ("set_data_value", "validate_data"):
+            # association-ignores-lists: AssociationValidator returns early for list values
+            if allow_known:
+                known = "association-ignores-lists"
+            else:
+                api = "data_setter"
+                res.count("excluded_by_finding")
+
         res.label(f"pair:{kind}/{vcase}")
         res.label("pair-api:" + api)
         if isinstance(value, _uuid.UUID) or hasattr(value, "uid") or is_text_identifier:
@@ -1525,17 +1569,18 @@ def run_pair(program, res, pid="C15"):
                                  f"{b[:300]}")
         res.count("pair_verdicts")
         vclass = type(value).__name__ if not isinstance(value, list) else "list"
+        ktag = f"/known:{known}" if known else ""
         if got == "crash":
             res.label("pair-crash:" + detail)
         if got != expect:
             if got == "crash" and expect == "reject":
                 res.count("rejected_by_crash")
             elif got == "crash":
-                res.fail(f"{pid}/pair/reject-valid/{kind}/{vcase}/{api}/crash:{detail}/{vclass}",
+                res.fail(f"{pid}/pair/reject-valid/{kind}/{vcase}/{api}/crash:{detail}/{vclass}" + ktag,
                          f"{api}: valid {kind} value {value!r} crashed: {detail}")
             else:
                 direction = "accept-invalid" if got == "accept" else "reject-valid"
-                res.fail(f"{pid}/pair/{direction}/{kind}/{vcase}/{api}/{detail or '-'}/{vclass}",
+                res.fail(f"{pid}/pair/{direction}/{kind}/{vcase}/{api}/{detail or '-'}/{vclass}" + ktag,
                          f"{api}: {kind} value {value!r} ({vcase}) -> {got} {detail}; by construction: {expect}")
         return True
     finally:
@@ -1759,7 +1804,7 @@ def hist_parameter(program, res, pid, state):
             if after != before:
                 # KNOWN FINDING (parameter-stores-before-validating); the stored value is put back
                 # so that the history continues from the documented state.
-                sig = f"{pid}/history/rejected-call-changed-state/parameter/value"
+                sig = f"{pid}/history/rejected-call-changed-state/parameter/value/known:parameter-stores-first"
                 if allow_known:
                     res.fail(sig, f"{cls_name}.value = {value!r} was refused ({got[1]}) but value is now {after} "
                                   f"(was {before})")
@@ -1856,7 +1901,7 @@ def hist_form(program, res, pid, state):
         else:
             after = uj_view(used.form())
             if after != before or list(used.active) != active_before:
-                sig = f"{pid}/history/rejected-call-changed-state/form/{member}"
+                sig = f"{pid}/history/rejected-call-changed-state/form/{member}/known:parameter-stores-first"
                 if allow_known:
                     res.fail(sig, f"{cls_name}.{member} = {value!r} was refused ({got[1]}) but the form changed: "
                                   f"{before} -> {after}; active {active_before} -> {list(used.active)}")
@@ -1980,9 +2025,6 @@ def hist_inputvalidation(program, res, pid, state):
         if whole:
             data = reference_flat(forms)
             data[key] = value
-            if call["op"] % 2 == 0:
-                data["a"] = None
-                data["b"] = None if key != "b" else data["b"]
             one_of_breaks = bool(extra) and data["a"] is None and data["b"] is None
             expect = iv_expect(key, value, forms)
             if expect == "accept" and one_of_breaks:
@@ -1998,6 +2040,11 @@ def hist_inputvalidation(program, res, pid, state):
             what = f"validate_data({key}={value!r}, a={data['a']!r}, b={data['b']!r})"
             op = "validate_data"
         else:
+            if extra and key in extra:
+                # InputValidation.validate() on a parameter carrying a `one_of` rule is not a documented
+                # use (InputFile.set_data_value strips the rule first): counted, not judged
+                res.count("history_unspecified")
+                continue
             expect = iv_expect(key, value, forms)
             got = verdict_of(lambda: used.validate(key, value))
             fresh_iv = build()
@@ -2005,7 +2052,7 @@ def hist_inputvalidation(program, res, pid, state):
             what = f"validate({key!r}, {value!r})"
             op = "validate"
         state.note(fresh[0])
-        if expect != "unspecified" and fresh[0] != expect:
+        if expect != "unspecified" and fresh[0] != expect and not (fresh[0] == "crash" and expect == "reject"):
             res.fail(f"{pid}/history/fresh-verdict-wrong/inputvalidation/{op}/{key}/{label}",
                      f"fresh InputValidation.{what} -> {fresh}; by construction {expect}")
         known = "validate-data-pops-one-of" if (extra and allow_known) else None
@@ -2091,7 +2138,8 @@ def hist_inputfile(program, res, pid, state):
                 expect = "accept" if isinstance(value, str) else ("unspecified" if isinstance(value, list)
                                                                   else "reject")
                 if isinstance(value, str) and classify_string(value) != "str":
-                    expect = "unspecified"
+                    res.count("history_unspecified")  # text that a ui.json converts to another kind
+                    continue
             elif key == "c":
                 expect = "unspecified" if isinstance(value, list) else ("accept" if value in ("a", "b") else "reject")
             elif key == "o":
@@ -2187,6 +2235,7 @@ def hist_uijson(program, res, pid, state):
         params = parameters()
         used = UIJson(params)
         removed = {}
+        poisoned = False
         for call in program["calls"]:
             op = call["op"] % 5
             if op in (1, 2):
@@ -2217,7 +2266,7 @@ def hist_uijson(program, res, pid, state):
                     break
                 if got[0] != "accept" and snap(target.value) != before:
                     if allow_known:
-                        res.fail(f"{pid}/history/rejected-call-changed-state/uijson/value",
+                        res.fail(f"{pid}/history/rejected-call-changed-state/uijson/value/known:parameter-stores-first",
                                  f"tol = {value!r} refused but value is now {snap(target.value)}")
                     else:
                         res.count("excluded_by_finding")
@@ -2231,17 +2280,18 @@ def hist_uijson(program, res, pid, state):
                 continue
             expect = "accept" if not missing else "reject"
             got = verdict_of(used.validate)
-            fresh_obj = UIJson(dict(used.parameters))
-            # the fresh object must know the same rules as the used one was built with
-            fresh_obj.enforcers = type(used.enforcers).from_validations(used.name, used.enforcers.validations)
+            # a fresh object built as the used one was (all parameters), then brought to the same state
+            fresh_obj = UIJson({**used.parameters, **removed})
+            for name in removed:
+                fresh_obj.parameters.pop(name)
             fresh = verdict_of(fresh_obj.validate)
             state.note(fresh[0])
             if fresh[0] != expect:
                 res.fail(f"{pid}/history/fresh-verdict-wrong/uijson/validate/missing={'+'.join(missing) or '-'}",
                          f"fresh UIJson.validate() -> {fresh}; missing parameters {missing}")
-            known = "pool-keeps-errors" if allow_known and getattr(used, "_c15_poisoned", False) else None
+            known = "pool-keeps-errors" if allow_known and poisoned else None
             if two_rules:
-                used.__dict__["_c15_poisoned"] = True
+                poisoned = True
             if not compare_call(res, pid, "uijson", "validate", got, fresh, f"missing={missing}", known):
                 if not known:
                     break
